@@ -63,7 +63,7 @@ PROPS["C09"] = dict(
     modules=["Kust.Props.C09"],
     theorems=["Kust.C09.ns_total", "Kust.C09.ns_empty_noop", "Kust.C09.ns_outermost_wins", "Kust.C09.ns_collision_is_error",
               "Kust.C09.scope_table_sane", "Kust.C09.scope_table_expected"],
-    components=["res.layers"],
+    components=["res.layers", "res.append"],
     oracle=True,
     n_corr={"quick": 3000, "thorough": 30000}, n_oracle={"quick": 500, "thorough": 5000},
     technique="Lean 4 proof (namespace step, outermost-wins induction over layers, collision re-check invariant, decide over regenerated scope table) + plugin correspondence + per-resource oracle on whole builds",
